@@ -51,6 +51,12 @@ def modelable(c, o):
             return False
     if o["status"] == "ok" and any(k is None for t in o["tapes"] for k in t):
         return False
+    # un-modelled shortcut of the real code: a tape without any multi-term observable is returned untouched, so a single-term
+    # product keeps its identity factors (key differs from the term's word); such cases are left to the direct oracle
+    if o["status"] == "ok" and not any(m["cls"] == "comp" and m["kind"] == 0 and len(m["terms"] or []) != 1 for m in o["meas"]):
+        for m in o["meas"]:
+            if m["cls"] == "comp" and m["kind"] == 0 and m["key"] is not None and any(l == 4 for _, l in m["key"][2]) and any(l != 4 for _, l in m["key"][2]):
+                return False
     return True
 
 
@@ -107,6 +113,10 @@ CORPUS_E2E = [
     {"transform": "diag", "nw": 1, "ms": [{"kind": "expval", "obs": ["sum", [["sprod", [1, 2], ["P", "Y", 0]], ["sprod", [-13, 8], ["I", 0]]]]}]},
     {"transform": "diag", "nw": 2, "ms": [{"kind": "expval", "obs": ["sum", [["P", "X", 0], ["sprod", [-3, 4], ["prod", [["I", 0], ["I", 1]]]]]]}]},
     {"transform": "diag", "nw": 2, "to_eigvals": True, "ms": [{"kind": "expval", "obs": ["sum", [["P", "Y", 1], ["sprod", [1, 2], ["P", "Z", 0]], ["sprod", [3, 2], ["I", 0]]]]}]},
+    # coefficient exactly -1 (a sign, not a magnitude): X(0) - Y(1), (-1*X(0)) @ Z(1), 2 X0 Y1 - Z2 + 0.3 I
+    {"transform": "diag", "nw": 2, "ms": [{"kind": "expval", "obs": ["sum", [["P", "X", 0], ["sprod", [-1, 1], ["P", "Y", 1]]]]}]},
+    {"transform": "diag", "nw": 3, "ms": [{"kind": "expval", "obs": ["prod", [["sprod", [-1, 1], ["P", "X", 0]], ["P", "Z", 1]]]}, {"kind": "var", "obs": ["P", "Y", 2]}]},
+    {"transform": "diag", "nw": 3, "ms": [{"kind": "expval", "obs": ["sum", [["sprod", [2, 1], ["prod", [["P", "X", 0], ["P", "Y", 1]]]], ["sprod", [-1, 1], ["P", "Z", 2]], ["sprod", [1, 4], ["I", 0]]]]}]},
     {"transform": "snc:default", "nw": 2, "ms": [{"kind": "var", "obs": ["I", 0]}, {"kind": "expval", "obs": ["P", "X", 0]}]},
     {"transform": "single", "nw": 2, "ms": [{"kind": "var", "obs": ["I", 0]}, {"kind": "expval", "obs": ["sum", [["P", "X", 0], ["sprod", [2, 1], ["I", 1]]]]}]},
 ]
